@@ -36,6 +36,12 @@ pub fn check_authentic(v: &View, dec: DecType, how: &str, cx: &mut Cx) {
         cx.stat("excluded:65-byte-key");
         return;
     }
+    if kind == PkKind::Var {
+        // the toy scheme has no security to speak of (anybody can compute its signatures): C01
+        // quantifies over the four real key types only
+        cx.stat("excluded:toy-scheme-authenticity");
+        return;
+    }
     if kind == PkKind::Ed && rc::ed_pk_class(&pk) == rc::EdPkClass::Excluded {
         cx.stat("excluded:weak-ed25519-key");
         return;
